@@ -149,4 +149,45 @@ public class LuaStr {
     if (lit.length() > 0) out.add(tup(sv("lit"), sv(lit.toString())));
     return new TupleValue(out.toArray(new Value[0]));
   }
+
+  // ---- output helpers
+  static void json(Value v, StringBuilder sb) {
+    if (v instanceof StringValue) {
+      String x = ((StringValue) v).val.toString();
+      sb.append('"');
+      for (int i = 0; i < x.length(); i++) {
+        char c = x.charAt(i);
+        if (c < 0x20 || c > 0x7e || c == '"' || c == '\\') sb.append(String.format("\\u%04x", (int) c));
+        else sb.append(c);
+      }
+      sb.append('"');
+    } else if (v instanceof IntValue) sb.append(((IntValue) v).val);
+    else if (v instanceof BoolValue) sb.append(((BoolValue) v).val ? "true" : "false");
+    else if (v instanceof RecordValue) {
+      RecordValue r = (RecordValue) v;
+      sb.append('{');
+      for (int i = 0; i < r.names.length; i++) {
+        if (i > 0) sb.append(',');
+        sb.append('"').append(r.names[i].toString()).append("\":");
+        json(r.values[i], sb);
+      }
+      sb.append('}');
+    } else {
+      Value t = v.toTuple();
+      if (t != null) {
+        TupleValue tv = (TupleValue) t;
+        sb.append('[');
+        for (int i = 0; i < tv.elems.length; i++) { if (i > 0) sb.append(','); json(tv.elems[i], sb); }
+        sb.append(']');
+      } else {
+        Value r = v.toRcd();
+        if (r != null) json(r, sb); else json(new StringValue(v.toString()), sb);
+      }
+    }
+  }
+  public static Value JsonOf(Value v) { StringBuilder sb = new StringBuilder(); json(v, sb); return sv(sb.toString()); }
+  public static synchronized Value EmitLine(Value s) {
+    util.ToolIO.out.println(str(s));
+    return BoolValue.ValTrue;
+  }
 }
